@@ -82,6 +82,14 @@ type ctxRec struct {
 	reenterPct  int
 	resolve     func(string, api.ResolveOptions) api.ResolveResult
 	tmp         string
+	// option-driven ways into resolve/load that bypass the ordinary import scan
+	nInj       int      // Inject paths resolved by the plugin: v:m100, w:m101
+	fsInj      bool     // an Inject path resolved by the file system (with an alias import, a glob import and a plain import)
+	useStdin   bool     // the entry point comes from Stdin and imports v:m0
+	cssEntry   bool     // a second entry point: a CSS file with an @import
+	dir        string   // directory of the real files
+	startMinUS int      // on-start callbacks last at least this long
+	fsMarks    []string // markers of the real files that a successful build must contain exactly once
 }
 
 func (c *ctxRec) curBuild() int { // call with mu held
@@ -156,7 +164,11 @@ func (c *ctxRec) plugins() []api.Plugin {
 			}
 			c.ptrace = append(c.ptrace, pev{B: b, Kind: "sb", I: i})
 			fail := c.rng.Intn(100) < c.failStartPct
+			minUS := c.startMinUS
 			c.mu.Unlock()
+			if minUS > 0 {
+				time.Sleep(time.Duration(minUS) * time.Microsecond)
+			}
 			c.delay()
 			c.mu.Lock()
 			c.startEnds++
@@ -215,7 +227,7 @@ func (c *ctxRec) plugins() []api.Plugin {
 			nested := a.PluginData == "nested"
 			c.mu.Lock()
 			b := c.curBuild()
-			if c.startEnds != (b+1)*c.nStartCB {
+			if b < 0 || c.startEnds != (b+1)*c.nStartCB {
 				c.failf("on-resolve of %q in build %d ran before all on-start callbacks finished (%d of %d ended)", a.Path, b, c.startEnds-b*c.nStartCB, c.nStartCB)
 			}
 			c.ptrace = append(c.ptrace, pev{B: b, Kind: "res", Mod: a.Path, Nested: nested})
@@ -237,7 +249,7 @@ func (c *ctxRec) plugins() []api.Plugin {
 			id := modIdentity(a.Path, a.Namespace, a.Suffix, a.With)
 			c.mu.Lock()
 			b := c.curBuild()
-			if c.startEnds != (b+1)*c.nStartCB {
+			if b < 0 || c.startEnds != (b+1)*c.nStartCB {
 				c.failf("on-load of %q in build %d ran before all on-start callbacks finished (%d of %d ended)", id, b, c.startEnds-b*c.nStartCB, c.nStartCB)
 			}
 			ver := c.version
@@ -289,6 +301,37 @@ func (c *ctxRec) plugins() []api.Plugin {
 		for i := 1; i < c.nStartCB; i++ {
 			build.OnStart(mkStart(i))
 		}
+		// observers for everything the first plugin does not claim (paths resolved
+		// and loaded by the file system: inject, alias, glob imports, CSS): they
+		// record the callback, check the on-start barrier and pass
+		build.OnResolve(api.OnResolveOptions{Filter: `.*`}, func(a api.OnResolveArgs) (api.OnResolveResult, error) {
+			c.mu.Lock()
+			b := c.curBuild()
+			if b < 0 || c.startEnds != (b+1)*c.nStartCB {
+				c.failf("on-resolve of %q (kind %d) ran while on-start callbacks of the build were still running or had not begun (%d begun, %d ended, %d per build)", a.Path, a.Kind, c.startBegins, c.startEnds, c.nStartCB)
+			}
+			c.ptrace = append(c.ptrace, pev{B: b, Kind: "res", Mod: a.Path, Nested: a.PluginData == "nested"})
+			c.mu.Unlock()
+			c.delay()
+			return api.OnResolveResult{}, nil
+		})
+		build.OnLoad(api.OnLoadOptions{Filter: `.*`, Namespace: "file"}, func(a api.OnLoadArgs) (api.OnLoadResult, error) {
+			id := modIdentity(a.Path, a.Namespace, a.Suffix, a.With)
+			c.mu.Lock()
+			b := c.curBuild()
+			if b < 0 || c.startEnds != (b+1)*c.nStartCB {
+				c.failf("on-load of %q in build %d ran before all on-start callbacks finished (%d of %d ended)", id, b, c.startEnds-b*c.nStartCB, c.nStartCB)
+			}
+			key := fmt.Sprintf("%d/%s", b, id)
+			if _, dup := c.loadVer[key]; dup {
+				c.failf("module identity %q was loaded twice in build %d", id, b)
+			}
+			c.loadVer[key] = c.version
+			c.ptrace = append(c.ptrace, pev{B: b, Kind: "load", Mod: id})
+			c.mu.Unlock()
+			c.delay()
+			return api.OnLoadResult{}, nil
+		})
 		for i := 1; i < c.nEndCB; i++ {
 			build.OnEnd(mkEnd(i))
 		}
@@ -325,8 +368,15 @@ func (c *ctxRec) reachable() map[int]int {
 		}
 	}
 	visit("m0", 0)
+	for i := 0; i < c.nInj; i++ {
+		out[100+i]++
+	}
 	return out
 }
+
+// forceEntryOptions makes every new context use Inject paths (plugin- and
+// file-system-resolved), an alias and a glob import (directed corpus)
+var forceEntryOptions = false
 
 func newCtxRec(r *Rng, tmp string, idx int) *ctxRec {
 	c := &ctxRec{firstLoad: map[int]int{}, loadVer: map[string]int{}, ended: map[int]bool{}, endBegins: map[int]int{},
@@ -366,15 +416,60 @@ func newCtxRec(r *Rng, tmp string, idx int) *ctxRec {
 	c.write = r.Chance(40)
 	dir := filepath.Join(tmp, fmt.Sprintf("ctx%d", idx))
 	os.MkdirAll(dir, 0o755)
+	c.dir = dir
 	c.outfile = filepath.Join(dir, "out.js")
+	if r.Chance(45) || forceEntryOptions {
+		c.nInj = r.Range(1, 2)
+	}
+	c.fsInj = r.Chance(35) || forceEntryOptions
+	c.useStdin = r.Chance(20)
+	c.cssEntry = r.Chance(15)
+	if c.nInj > 0 || c.fsInj || c.useStdin || c.cssEntry {
+		c.startMinUS = 400 + r.Intn(2500)
+	}
+	if c.cssEntry {
+		c.write = false // several entry points: outdir instead of outfile
+		os.WriteFile(filepath.Join(dir, "style.css"), []byte("@import \"./other.css\";\n.a { color: red }\n"), 0o644)
+		os.WriteFile(filepath.Join(dir, "other.css"), []byte(".b { color: blue }\n"), 0o644)
+	}
+	if c.fsInj {
+		os.MkdirAll(filepath.Join(dir, "globdir"), 0o755)
+		os.WriteFile(filepath.Join(dir, "fsinj.js"), []byte("import \"./fsdep.js\";\nimport \"aliased-pkg\";\nconst k = globalThis.K || \"a\";\nimport(\"./globdir/\" + k + \".js\");\nconsole.log(\"FSMARK_inj\");\n"), 0o644)
+		os.WriteFile(filepath.Join(dir, "fsdep.js"), []byte("console.log(\"FSMARK_dep\");\n"), 0o644)
+		os.WriteFile(filepath.Join(dir, "alias-target.js"), []byte("console.log(\"FSMARK_alias\");\n"), 0o644)
+		os.WriteFile(filepath.Join(dir, "globdir", "a.js"), []byte("console.log(\"FSMARK_ga\");\n"), 0o644)
+		os.WriteFile(filepath.Join(dir, "globdir", "b.js"), []byte("console.log(\"FSMARK_gb\");\n"), 0o644)
+		c.fsMarks = []string{"FSMARK_inj", "FSMARK_dep", "FSMARK_alias", "FSMARK_ga", "FSMARK_gb"}
+	}
 	return c
 }
 
 func (c *ctxRec) options() api.BuildOptions {
-	return api.BuildOptions{
+	o := api.BuildOptions{
 		EntryPoints: []string{"v:m0"}, Bundle: true, Format: api.FormatESModule, Outfile: c.outfile, Write: c.write,
-		LogLevel: api.LogLevelSilent, AbsWorkingDir: c.tmp, Plugins: c.plugins(),
+		LogLevel: api.LogLevelSilent, AbsWorkingDir: c.dir, Plugins: c.plugins(),
 	}
+	for i := 0; i < c.nInj; i++ {
+		o.Inject = append(o.Inject, fmt.Sprintf("%sm%d", []string{"v:", "w:"}[i%2], 100+i))
+	}
+	if c.fsInj {
+		o.Inject = append(o.Inject, filepath.Join(c.dir, "fsinj.js"))
+		o.Alias = map[string]string{"aliased-pkg": filepath.Join(c.dir, "alias-target.js")}
+	}
+	if c.useStdin {
+		o.EntryPoints = nil
+		o.Stdin = &api.StdinOptions{Contents: "import \"v:m0\";\n", ResolveDir: c.dir, Sourcefile: "stdin.js"}
+	}
+	if c.cssEntry {
+		o.Outfile = ""
+		o.Outdir = filepath.Join(c.dir, "outdir")
+		if c.useStdin {
+			o.EntryPoints = []string{filepath.Join(c.dir, "style.css")}
+		} else {
+			o.EntryPoints = append(o.EntryPoints, filepath.Join(c.dir, "style.css"))
+		}
+	}
+	return o
 }
 
 // ---- calls ----
@@ -468,6 +563,11 @@ func (c *ctxRec) decodeResult(res api.BuildResult) (rvT, []string) {
 		for mi, n := range want {
 			if seen[mi] != n {
 				errs = append(errs, fmt.Sprintf("incomplete or duplicated result: module m%d appears %d times in the output of build %d, expected %d", mi, seen[mi], b, n))
+			}
+		}
+		for _, mk := range c.fsMarks {
+			if n := strings.Count(text, mk); n != 1 {
+				errs = append(errs, fmt.Sprintf("incomplete or duplicated result: file-system module %s appears %d times in the output of build %d", mk, n, b))
 			}
 		}
 		for mi := range seen {
